@@ -7,7 +7,8 @@ Everything here is specification (no part of the executable data path uses it):
 
 * `mapsAtCls w T o` — "the class positions of the payload `o` hold mappings": the traversal follows the one of
   the structuring hooks for `T`; at a position typed with a class the payload must be a `dict`, and the values
-  found under the keys of its `init` fields must satisfy the predicate for the fields' types.
+  found under the keys of its `init` fields must satisfy the predicate for the fields' types.  A `str` / `bytes`
+  payload at an iterating position is iterated like the hooks do (`mapsAtClsLf`): its items are not mappings.
 * `normSeq` — the documented container difference: a `Converter` turns tuples and deques into lists, a
   `BaseConverter` keeps the container class it finds.  `normSeq` maps every list/tuple/deque to a list,
   recursively through sequences and dict values; sets and dict keys are left alone.
@@ -21,15 +22,53 @@ open CattrsModel
 
 /-! ### class positions hold mappings -/
 
+/-! `str` / `bytes` payloads at iterating positions (see `stLF`): the items are 1-character strings / ints, never
+mappings -- the predicate fails exactly when such an item reaches a class position. -/
+mutual
+def mapsAtClsLf (w : World) : Nat → Ty → Obj → Bool
+  | n, .coll _ t, o =>
+      match leafItems o with
+      | Option.none => true
+      | some xs => mapsAtClsLfL w n t xs
+  | n, .tupleHet ts, o =>
+      match leafItems o with
+      | Option.none => true
+      | some xs => mapsAtClsLfT w n ts xs
+  | _, .opt _, .none => true
+  | n, .opt t, x => mapsAtClsLf w n t x
+  | n, .wrap _ t, x => mapsAtClsLf w n t x
+  | _, .cls _, _ => false
+  | _, .td _, _ => false
+  | _, .union _ _, .none => true
+  | _, .union _ _, _ => false
+  | n, .nt c, o =>
+      match n with
+      | 0 => true
+      | n' + 1 =>
+        match leafItems o with
+        | Option.none => true
+        | some xs => mapsAtClsLfT w n' (w.ntTys c) xs
+  | _, _, _ => true
+termination_by n t _ => (n, sizeOf t, 0)
+def mapsAtClsLfL (w : World) (n : Nat) (t : Ty) : List Obj → Bool
+  | [] => true
+  | x :: xs => mapsAtClsLf w n t x && mapsAtClsLfL w n t xs
+termination_by xs => (n, sizeOf t, xs.length + 1)
+def mapsAtClsLfT (w : World) (n : Nat) : List Ty → List Obj → Bool
+  | t :: ts, x :: xs => mapsAtClsLf w n t x && mapsAtClsLfT w n ts xs
+  | _, _ => true
+termination_by ts _ => (n, sizeOf ts, 0)
+end
+
 mutual
 def mapsAtCls (w : World) : Ty → Obj → Bool
-  | .coll _ t, o =>
+  | .coll k t, o =>
       match h : iterItems o with
-      | Option.none => true
+      | Option.none => mapsAtClsLf w (leafFuel w) (.coll k t) o
       | some xs => mapsAtClsL w t xs
   | .tupleHet ts, o =>
       match h : iterItems o with
-      | Option.none => true
+      | Option.none => mapsAtClsLf w (leafFuel w) (.tupleHet ts) o
       | some xs => mapsAtClsT w ts xs
   | .map _ kt vt, .dict kvs => mapsAtClsKV w kt vt kvs
   | .opt _, .none => true
@@ -46,7 +85,7 @@ def mapsAtCls (w : World) : Ty → Obj → Bool
   -- a NamedTuple position is a tuple position: the items are inspected like those of a heterogeneous tuple
   | .nt c, o =>
       match h : iterItems o with
-      | Option.none => true
+      | Option.none => mapsAtClsLf w (leafFuel w) (.nt c) o
       | some xs => mapsAtClsT w (w.ntTys c) xs
   | _, _ => true
 termination_by t x => (sizeOf x, sizeOf t)
